@@ -27,10 +27,18 @@ PLAN = {
 # further trace specifications of the same property (run after the main plan)
 EXTRA = {
     'C01': [('TraceRejection', 'TraceRejection.cfg', 'beta.ndjson', {}, {'lawc': ['P', 'nonint']}),
+            ('TraceBtpe', 'TraceBtpe.cfg', 'mt.ndjson', {}, {'mt': ['T', 'outq']}),
+            ('TraceBtpe', 'TraceBtpe.cfg', 'cheng.ndjson', {}, {'cheng': ['T', 'xq']}),
             ('TraceCompose', 'TraceCompose.cfg', 'comp_0.ndjson', {}, {'wire': ['got', 'gcls'], 'msh': ['T', 'words_same']})],
     'C02': [('TraceRejection', 'TraceRejection.cfg', 'rej.ndjson', {}, {'law': ['P', 'other', 'nonint']}),
+            ('TraceBtpe', 'TraceBtpe.cfg', 'btpe.ndjson', {}, {'btpe2': ['T', 'y'], 'btpe1': ['cnts'], 'btpet': ['lo', 'hi']}),
+            ('TraceBtpe', 'TraceBtpe.cfg', 'h2pe.ndjson', {}, {'h2pe1': ['T', 'out'], 'h2pet': ['lo', 'hi']}),
+            ('TraceBtpe', 'TraceBtpe.cfg', 'pd.ndjson', {}, {'pd': ['T', 'k'], 'pdh': ['ap', 'am']}),
+            ('TraceBtpe', 'TraceBtpe.cfg', 'rej64.ndjson', {}, {'rej64': ['T', 'x']}),
             ('TraceRejection', 'TraceRejection.cfg', 'knuth.ndjson', {}, {'knuth32': ['oneword', 'P'], 'knuth64': ['p0', 'witness']})],
     'C06': [('TraceZigAcc', 'TraceZigAcc.cfg', 'zigacc.ndjson', {}, {'wedge': ['T', 'inwedge', 'xq'], 'ntail': ['T'], 'etail': ['cnt']})],
+    'C10': [('TraceFloatLaw', 'TraceFloatLaw.cfg', 'tree_flaw.ndjson', {}, {'flaw': ['len', 'intervals']})],
+    'C08': [('TraceFloatLaw', 'TraceFloatLaw.cfg', 'alias_flaw.ndjson', {}, {'alaw': ['wq']})],
     'C12': [('TraceGeom', 'TraceGeom.cfg', 'geom_0.ndjson', {}, {'edge': ['last', 'zero_rejected'], 'img': ['got']})],
 }
 
@@ -49,7 +57,7 @@ def corrupt(ev, field):
         elif isinstance(v[0], int):
             # little-endian base-2^14 limbs (T, cnt, last, p0, xq): corrupt the most significant limb; otherwise the first entry
             w = list(v)
-            if field in ('T', 'cnt', 'last', 'p0', 'xq'):
+            if field in ('T', 'cnt', 'last', 'p0', 'xq', 'lo', 'hi', 'ap', 'am', 'outq'):
                 w[-1] += 1
             else:
                 w[0] += 1
